@@ -19,8 +19,8 @@ Opaque ids -> concrete values is an injective renaming done here (catalogues XCA
 kinds list/tuple/ndarray/numpy scalar chosen by rotation over the emitted cases); every expected
 VALUE POSITION comes out of TLC.
 """
-import sys, os, io, contextlib, shutil, importlib, inspect, textwrap, json, time, copy
-from harness.core import Check, tier_seed, assert_repo, main_guard, ROOT, jsonable
+import sys, os, io, contextlib, shutil, importlib, inspect, textwrap, json, copy
+from harness.core import Check, tier_seed, assert_repo, main_guard, ROOT
 from harness.tlc import run_tlc
 
 NONE = 1000
@@ -150,6 +150,7 @@ def replay_script(M, np, sc, cls, prof, report, corrupt=False):
         heap.append(m)
         if fn: files.append(fn)
     expect = [(0, (), (), ()), (0, (), (), ())]
+    snap = [repr((len(m), m.x, m.y, m.id)) for m in heap]
     verbose = cls.startswith("Verbose")
     try:
         for step, op in enumerate(sc["s"]):
@@ -201,6 +202,15 @@ def replay_script(M, np, sc, cls, prof, report, corrupt=False):
             else:
                 expect[tgt] = exp
             for o, m in enumerate(heap):
+                # objects not written by this operation: a cheap exact test first -- the repr of
+                # (len, x, y, id) must be the one taken when the object was last verified (repr of
+                # floats is exact, so equal repr => equal values and types => still as specified)
+                if o != tgt:
+                    try:
+                        if repr((len(m), m.x, m.y, m.id)) == snap[o]:
+                            continue
+                    except Exception:
+                        pass
                 try:
                     got = observe(m)
                 except Exception as ex:
@@ -217,6 +227,9 @@ def replay_script(M, np, sc, cls, prof, report, corrupt=False):
                            "%s k=%s after step %d %s: object %d (written: %d) spec says len/x/y/id=%s, mystic gives %s"
                            % (cls, ks, step, op[:7], o + 1, tgt + 1, expect[o], got))
                     return False
+                r = repr((len(m), m.x, m.y, m.id))
+                if o == len(snap): snap.append(r)
+                else: snap[o] = r
             # i-th record through integer indexing (first and last) on the written object
             m = heap[tgt]
             if recs:
@@ -242,7 +255,7 @@ def replay_script(M, np, sc, cls, prof, report, corrupt=False):
 
 class _Guard(object):
     """bound the damage of a runaway implementation while replaying: address space (-> MemoryError)
-    and wall time per case (-> TimeoutError); both are then reported as 'raises-...' violations"""
+    and CPU time per case (-> TimeoutError); both are then reported as 'raises-...' violations"""
     MEM = 6 << 30
     SECS = 60
 
@@ -254,17 +267,17 @@ class _Guard(object):
 
         def on_alarm(sig, frm):
             raise TimeoutError("case did not finish within %d s" % self.SECS)
-        self.oldh = signal.signal(signal.SIGALRM, on_alarm)
+        self.oldh = signal.signal(signal.SIGVTALRM, on_alarm)
         return self
 
     def tick(self):
         import signal
-        signal.setitimer(signal.ITIMER_REAL, self.SECS)
+        signal.setitimer(signal.ITIMER_VIRTUAL, self.SECS)
 
     def __exit__(self, *exc):
         import resource, signal
-        signal.setitimer(signal.ITIMER_REAL, 0)
-        signal.signal(signal.SIGALRM, self.oldh)
+        signal.setitimer(signal.ITIMER_VIRTUAL, 0)
+        signal.signal(signal.SIGVTALRM, self.oldh)
         resource.setrlimit(resource.RLIMIT_AS, self.old)
         return False
 
@@ -442,7 +455,7 @@ def tasks_for(tier):
         T.append(dict(part="file", module="mon/MC_LogFile", cfg="MC_LogFile_quick.cfg", env={"C20_OSTEP": 3}))
     else:
         for i in range(1, 17):
-            T.append(dict(part="script", module="mon/MC_Monitor", cfg="MC_MonScript_w4f3.cfg", env={"C20_KLO": i, "C20_KHI": i}, classes=4))
+            T.append(dict(part="script", module="mon/MC_Monitor", cfg="MC_MonScript_w4f3.cfg", env={"C20_KLO": i, "C20_KHI": i}, classes=2))
         for i in range(1, 17, 2):
             T.append(dict(part="script", module="mon/MC_Monitor", cfg="MC_MonScript_w0f3.cfg", env={"C20_KLO": i, "C20_KHI": i + 1}, classes=2))
         for i in range(1, 17, 4):
@@ -533,6 +546,8 @@ def _work(args):
     task, seed = args
     M, G, np = _mods()
     res = gen(task)
+    import gc
+    gc.freeze()                 # the parsed TLC output is long-lived: keep it out of the collector's way
     out = replay(task, res, M, G, np, seed=seed)
     res.pop("printed")
     return task, res, out
